@@ -24,6 +24,11 @@ pub const MODES: &[&[&str]] = &[
     &["--navigate", "--hyperlinks"],
     &["--diff-so-fancy"],
     &["--line-numbers", "--hunk-header-style", "omit", "--file-style", "omit"],
+    &["--raw"],
+    &["--diff-highlight"],
+    &["--file-style", "raw", "--hunk-header-style", "raw", "--line-numbers"],
+    &["--color-only", "--side-by-side"],
+    &["--keep-plus-minus-markers", "--hunk-header-style", "file line-number syntax", "--relative-paths"],
 ];
 
 #[derive(Clone, Debug, Serialize, Deserialize)]
@@ -259,7 +264,7 @@ pub fn main_c10(tier: &str, seed: u64, replay: Option<&str>) -> i32 {
     let mut ev = Evidence::new("C10", tier, seed, "exploration");
     ev.evaluations = runs;
     ev.distinct_nontrivial = specs.len() as u64;
-    ev.rule = "clause 1 (generation only, no schedule/fault): one evaluation = one in-process delta() run; a case = a sequence of 2-6 git file sections of 12 kinds (every ordered pair of kinds under 8 option modes enumerated; triples enumerated in the thorough tier; longer sequences sampled), rendered together and one by one. distinct_nontrivial = distinct (kind sequence, mode, seed) cases, each with at least one section boundary.".into();
+    ev.rule = "clause 1 (generation only, no schedule/fault): one evaluation = one in-process delta() run; a case = a sequence of 2-6 git file sections of 12 kinds (every ordered pair of kinds under 13 option modes enumerated; triples enumerated in the thorough tier; longer sequences sampled), rendered together and one by one. distinct_nontrivial = distinct (kind sequence, mode, seed) cases, each with at least one section boundary.".into();
     ev.counters.insert("cases".into(), specs.len() as u64);
     ev.counters.insert("distinct_adjacent_kind_pairs".into(), pairs.len() as u64);
     ev.counters.insert("adjacent_kind_pairs_possible".into(), (ALL_SECTION_KINDS.len() * ALL_SECTION_KINDS.len()) as u64);
